@@ -224,7 +224,9 @@ class Env:
         a = np.asarray(a, dtype=object)
         if self.sym:
             return SymArray(a.copy(), writeable)
-        return to_numpy(a)
+        out = to_numpy(a)
+        out.setflags(write=writeable)
+        return out
 
     def const(self, a, writeable=True):
         """a concrete ndarray, wrapped at the boundary in symbolic mode (a plain ndarray's
